@@ -28,6 +28,8 @@ def file_descs(tier):
                     dict(base, nsteps=3, shape=[2, 1, 3], start=2)]
         if fmt in ('uamiv', 'lateral_boundary'):
             variants.append(dict(base, spc=2, nsteps=2, shape=[2, 2, 1]))
+            # steps across midnight with hour-24 end stamps (end flag differs from the next begin flag)
+            variants.append(dict(base, nsteps=3, start=6, end24=True, shape=[2, 2, 1]))
         if tier == 'thorough':
             for sh in ([1, 1, 1], [3, 3, 2], [1, 2, 3], [3, 1, 1], [2, 2, 3], [4, 4, 2]):
                 for n in (1, 2, 3, 4):
@@ -108,7 +110,8 @@ class Prop(c09.Prop):
 
     def bounds(self, tier):
         ds = file_descs(tier)
-        return {'files': len(ds), 'formats': FORMATS + ('landuse',), 'chunk': CHUNK,
+        return {'files': len(ds), 'formats': FORMATS + ('landuse', 'bpch'), 'chunk': CHUNK,
+                'bpch_files': len(self.bpch_cases(tier)),
                 'landuse_files': len([d for d in camx_u.landuse_descs(tier) if d['payload'] == 'ramp' and
                                       tuple(d['shape']) in ((3, 2), (1, 1), (2, 2))])}
 
@@ -121,6 +124,11 @@ class Prop(c09.Prop):
                 if d['fmt'] in ('uamiv', 'lateral_boundary') and d.get('nsteps', 0) >= 2:
                     # the documented update mode: numpy.memmap may EXTEND a short file
                     yield {'desc': d, 'lo': a, 'hi': min(size, a + CHUNK), 'mode': 'r+'}
+        # GEOS-Chem binary punch files (recipes of C18): averaged and instantaneous output
+        for bc in self.bpch_cases(tier):
+            size = len(self.bpch_bytes(bc)[0])
+            for a in range(0, size, CHUNK):
+                yield {'desc': {'fmt': 'bpch', 'case': bc}, 'lo': a, 'hi': min(size, a + CHUNK)}
         for d in camx_u.landuse_descs(tier):
             if d['payload'] != 'ramp' or tuple(d['shape']) not in ((3, 2), (1, 1), (2, 2)):
                 continue
@@ -130,6 +138,115 @@ class Prop(c09.Prop):
 
     def expand(self, group):
         yield group
+
+    def bpch_cases(self, tier):
+        out = [{'nt': 3, 'ncat': 1, 'ntr': 2, 'layers': '2+1', 'start': [1, 1, 1], 'tables': 'complete'},
+               {'nt': 2, 'ncat': 1, 'ntr': 1, 'layers': '1', 'start': [1, 1, 1], 'tables': 'complete',
+                'instant': True}]
+        if tier == 'thorough':
+            out += [{'nt': 3, 'ncat': 2, 'ntr': 1, 'layers': '1', 'start': [2, 3, 2], 'tables': 'complete',
+                     'instant': True},
+                    {'nt': 2, 'ncat': 2, 'ntr': 2, 'layers': '2+3', 'start': [1, 1, 1], 'tables': 'complete', 'dt': 3}]
+        return out
+
+    def bpch_bytes(self, bc):
+        from . import c18
+        if not hasattr(self, '_c18'):
+            self._c18 = c18.Prop()
+        r, vars_ = self._c18.recipe(bc)
+        return rf.enc_bpch(r), r, vars_
+
+    def run_bpch(self, g):
+        """every prefix of a binary punch file: an exception, or complete time blocks only, equal to the full file's"""
+        import shutil
+        from . import c18
+        P = core.load_lib()
+        bc = g['desc']['case']
+        raw, r, vars_ = self.bpch_bytes(bc)
+        d = os.path.join(self.tmp, 'bp_%d' % os.getpid())
+        shutil.rmtree(d, True)
+        os.makedirs(d)
+        with open(os.path.join(d, 'tracerinfo.dat'), 'w') as fh:
+            fh.write('# reference tracerinfo\n')
+            for off in (0, 1000):
+                for num, name, scale, unit in c18.TRACERS[off]:
+                    fh.write(rf.tracerinfo_line(name, name + ' tracer', 2.8e-2, 1, num, scale, unit) + '\n')
+        with open(os.path.join(d, 'diaginfo.dat'), 'w') as fh:
+            fh.write('# reference diaginfo\n')
+            for cat, off in c18.CATS:
+                fh.write(rf.diaginfo_line(off, cat, 'category ' + cat) + '\n')
+        p = os.path.join(d, 'cut.bpch')
+
+        def read(path):
+            with c18.quiet():
+                f = P.pncopen(path, format='bpch1', noscale=True)
+            out = {}
+            for k in f.variables.keys():
+                try:
+                    out[k] = np.array(np.asarray(f.variables[k][...]))
+                except Exception:
+                    out[k] = None
+            nt_ = len(f.dimensions['time']) if 'time' in f.dimensions else None
+            del f
+            return nt_, out
+        with open(p, 'wb') as fh:
+            fh.write(raw)
+        scope0 = dict(fmt='bpch', mode='r', shape=bc['layers'], nsteps=bc['nt'], instant=bool(bc.get('instant')))
+        try:
+            fnt, fdata = read(p)
+        except Exception as e:
+            return result('full-file-unreadable', [], [h64(raw)], 1, None, h64(type(e).__name__))
+        keys = [k for k, v in fdata.items() if v is not None and v.ndim >= 1 and v.shape[0] == fnt]
+        vs, outcomes, ntrans = [], {}, 0
+        for cut in range(g['hi'] - 1, g['lo'] - 1, -1):
+            with open(p, 'wb') as fh:
+                fh.write(raw[:cut])
+            ntrans += 1
+            signal.setitimer(signal.ITIMER_REAL, 5.0)
+            try:
+                nt_, data = read(p)
+                signal.setitimer(signal.ITIMER_REAL, self.HORIZON)
+            except core.Timeout:
+                signal.setitimer(signal.ITIMER_REAL, self.HORIZON)
+                outcomes['hang'] = outcomes.get('hang', 0) + 1
+                vs.append(viol('no-termination', ('truncated', 'bpch', 'any'), 'prefix of %d/%d bytes: reader did not '
+                               'return within 5 s' % (cut, len(raw)), cutclass='any', **scope0))
+                continue
+            except Exception:
+                signal.setitimer(signal.ITIMER_REAL, self.HORIZON)
+                outcomes['raised'] = outcomes.get('raised', 0) + 1
+                gc.collect()
+                continue
+            gc.collect()
+            problem = None
+            if nt_ is None or nt_ > fnt:
+                problem = ('steps-fabricated', 'time=%r, full file has %d' % (nt_, fnt))
+            else:
+                for k in keys:
+                    got = data.get(k)
+                    if got is None:
+                        continue
+                    want = fdata[k][:nt_]
+                    if got.shape != want.shape or got.tobytes() != want.tobytes():
+                        what = 'time-flags-differ' if k in ('tau0', 'tau1', 'time', 'time_bounds') else 'values-differ'
+                        problem = (what, '%s: shape %r vs %r; %s vs %s' % (k, got.shape, want.shape, got.ravel()[:4],
+                                                                        want.ravel()[:4]))
+                        break
+            if problem:
+                outcomes['misread'] = outcomes.get('misread', 0) + 1
+                vs.append(viol(problem[0], ('truncated', 'bpch', 'any'), 'prefix of %d/%d bytes opened silently with '
+                               '%r time blocks: %s' % (cut, len(raw), nt_, problem[1]), cutclass='any', exposed=nt_,
+                               **scope0))
+            else:
+                key = 'prefix-ok-%d-steps' % nt_
+                outcomes[key] = outcomes.get(key, 0) + 1
+        fid = h64('c14', sorted(bc.items(), key=str))
+        res = result('viol' if vs else 'ok', vs, [h64(raw)] + [h64(fid, c) for c in range(g['lo'], g['hi'])],
+                     ntrans, [h64(fid, c) for c in range(max(g['lo'], 1), g['hi'])],
+                     h64(repr(sorted(outcomes.items()))))
+        res['n'] = ntrans
+        res['outcomes'] = outcomes
+        return res
 
     def run_landuse(self, g):
         d = g['desc']
@@ -239,6 +356,8 @@ class Prop(c09.Prop):
         d = g['desc']
         if d['fmt'] == 'landuse':
             return self.run_landuse(g)
+        if d['fmt'] == 'bpch':
+            return self.run_bpch(g)
         r = camx_u.materialize(d)
         fmt = d['fmt']
         raw = camx_u.encode(r)
